@@ -1208,3 +1208,267 @@ def compare(e, g):
       return None
     return ("def " + repr(e[1]), repr(g))
   return None
+
+
+# ---------------------------------------------------------------------------------------------
+# MODULE CHAINS:  upstream module(s) u  <-  a (imports u under an alias / from a package)  <-  b (reads a's names)
+#
+# a's emitted stub then carries `import u as alias` / `from pk import sub as alias` and spells every type of u through
+# the alias (alias.K.In); b's loader has to resolve the alias (load_pytd._Resolver.resolve_module_alias) to find the
+# dependency, incl. classes nested one and two levels below a member of the aliased module, with same-named top-level
+# decoys in u (a wrong lookup then yields a wrong TYPE rather than an error) and in a package's __init__.
+# The expectation is a's own inference: the probe expressions b evaluates are appended to a as `_p_<name> = <expr>`.
+
+CH_LITS = [("0", "int"), ("''", "str"), ("1.5", "float"), ("b''", "bytes"), ("2j", "complex"), ("[1]", "list"),
+           ("(1, '')", "tuple"), ("{'k': 1}", "dict")]
+CH_NESTED = ["In", "Item", "Leaf", "Node"]
+
+
+def gen_upstream(r, lit_offset):
+  """source of an upstream module: classes K0.. each with a nested class (some with a second level), a top-level
+  decoy for every nested name, functions and methods returning nested classes.  Returns (source, description)."""
+  lits = CH_LITS[lit_offset:] + CH_LITS[:lit_offset]
+  nk = r.choice([1, 2, 2])
+  out = []
+  desc = []
+  li = 0
+  def lit():
+    nonlocal li
+    li += 1
+    return lits[li % len(lits)][0]
+  used = []
+  for i in range(nk):
+    nested = r.choice(CH_NESTED)
+    deep = r.choice([None, None, "Deep", r.choice(CH_NESTED)])
+    if deep == nested:
+      deep = "Deep"
+    body = ["class K%d:\n" % i, "  z = %s\n" % lit(), "  class %s:\n    z = %s\n" % (nested, lit())]
+    if deep:
+      body.append("    class %s:\n      z = %s\n" % (deep, lit()))
+    body.append("    def up(self):\n      return K%d()\n" % i)
+    body.append("  def mk(self):\n    return K%d.%s()\n" % (i, nested))
+    if deep and r.random() < 0.7:
+      body.append("  def mkd(self) -> 'K%d.%s.%s':\n    return K%d.%s.%s()\n" % (i, nested, deep, i, nested, deep))
+    out.append("".join(body))
+    out.append("def mk%d() -> K%d.%s:\n  return K%d.%s()\n" % (i, i, nested, i, nested))
+    desc.append((i, nested, deep))
+    used += [nested] + ([deep] if deep else [])
+  # decoys: top-level classes with the simple names of the nested ones (always for the first, mostly for the others)
+  decoys = []
+  for k, n in enumerate(dict.fromkeys(used)):
+    if k == 0 or r.random() < 0.7:
+      decoys.append("class %s:\n  z = %s\n  decoy = True\n" % (n, lit()))
+  if r.random() < 0.5:
+    out = decoys + out
+  else:
+    out = out + decoys
+  return "".join(out), desc
+
+
+def gen_chain(r):
+  """{"modules": [(file path without extension, module name, source)] in dependency order (upstream.., a, b),
+      "probes": n, "shape": ...}"""
+  layout = r.choice(["flat", "flat", "pkg", "pkg", "pkg_from", "deep"])
+  src_u, desc = gen_upstream(r, r.randrange(len(CH_LITS)))
+  mods = []
+  if layout == "flat":
+    mods.append(("c", "c", src_u))
+    imp, q = r.choice([("import c as cc", "cc"), ("import c as cc", "cc"), ("import c as c2", "c2")])
+  elif layout == "pkg":
+    mods.append(("pk/__init__", "pk", gen_upstream(r, 3)[0] if r.random() < 0.6 else "In = 3\n"))
+    mods.append(("pk/sub", "pk.sub", src_u))
+    imp, q = "import pk.sub as ps", "ps"
+  elif layout == "pkg_from":
+    mods.append(("pk/__init__", "pk", gen_upstream(r, 3)[0] if r.random() < 0.6 else "Item = ''\n"))
+    mods.append(("pk/sub", "pk.sub", src_u))
+    imp, q = "from pk import sub as ps", "ps"
+  else:
+    mods.append(("pk/__init__", "pk", ""))
+    mods.append(("pk/mid/__init__", "pk.mid", gen_upstream(r, 5)[0] if r.random() < 0.5 else ""))
+    mods.append(("pk/mid/leaf", "pk.mid.leaf", src_u))
+    imp, q = r.choice([("import pk.mid.leaf as lf", "lf"), ("from pk.mid import leaf as lf", "lf")])
+  a = ["from typing import Optional\n", imp + "\n", "def _cond(): return bool(_cond)\n"]
+  # a second upstream module with the SAME class names under another alias
+  # (ALWAYS: a flat `import d as dd` is the form whose emitted alias the loader resolves through
+  # resolve_module_alias; every chain carries at least this one, whatever the main layout is)
+  second = None
+  if True:
+    src_d, desc_d = gen_upstream(r, 6)
+    mods.append(("d", "d", src_d))
+    a.append("import d as dd\n")
+    second = ("dd", desc_d)
+  probes = []     # (name, expression with {A} in front of a's names)
+  def P(name, expr):
+    probes.append((name, expr))
+  for (i, nested, deep) in desc:
+    a.append("x%d = %s.K%d()\n" % (i, q, i))
+    a.append("y%d = %s.K%d.%s()\n" % (i, q, i, nested))
+    P("vx%d" % i, "{A}x%d" % i)
+    P("vy%d" % i, "{A}y%d" % i)
+    P("yz%d" % i, "{A}y%d.z" % i)
+    P("xm%d" % i, "{A}x%d.mk()" % i)
+    P("xmz%d" % i, "{A}x%d.mk().z" % i)
+    P("yu%d" % i, "{A}y%d.up().z" % i)
+    if deep:
+      a.append("w%d = %s.K%d.%s.%s()\n" % (i, q, i, nested, deep))
+      P("vw%d" % i, "{A}w%d" % i)
+      P("wz%d" % i, "{A}w%d.z" % i)
+    a.append("def f%d(k: %s.K%d) -> %s.K%d.%s:\n  return k.%s()\n" % (i, q, i, q, i, nested, nested))
+    P("r%d" % i, "{A}f%d({A}x%d)" % (i, i))
+    P("rz%d" % i, "{A}f%d({A}x%d).z" % (i, i))
+    x = r.random()
+    if x < 0.5:
+      a.append("l%d = [%s.K%d.%s()]\n" % (i, q, i, nested))
+      P("lz%d" % i, "{A}l%d[0].z" % i)
+    if x > 0.3:
+      a.append("def g%d(v: %s.K%d.%s) -> list[%s.K%d.%s]:\n  return [v]\n" % (i, q, i, nested, q, i, nested))
+      P("gz%d" % i, "{A}g%d({A}y%d)[0].z" % (i, i))
+    x = r.random()
+    if x < 0.4:
+      a.append("class D%d(%s.K%d.%s):\n  own = 1\n" % (i, q, i, nested))
+      P("dz%d" % i, "{A}D%d().z" % i)
+    if x > 0.25:
+      a.append("class E%d:\n  a: %s.K%d.%s\n  def __init__(self) -> None:\n    self.a = %s.K%d.%s()\n    self.o = (%s.mk%d() if _cond() else None)\n"
+               % (i, q, i, nested, q, i, nested, q, i))
+      P("ez%d" % i, "{A}E%d().a.z" % i)
+      P("eo%d" % i, "{A}E%d().o" % i)
+    if r.random() < 0.5:
+      a.append("kk%d = %s.K%d.%s\n" % (i, q, i, nested))
+      P("kz%d" % i, "{A}kk%d().z" % i)
+    if r.random() < 0.5:
+      a.append("t%d = (%s.K%d.%s(), %s.mk%d())\n" % (i, q, i, nested, q, i))
+      P("tz%d" % i, "{A}t%d[1].z" % i)
+    if r.random() < 0.4:
+      a.append("o%d: Optional[%s.K%d.%s] = None\n" % (i, q, i, nested))
+      P("vo%d" % i, "{A}o%d" % i)
+  if second:
+    q2, desc_d = second
+    i, nested, deep = desc_d[0]
+    a.append("s0 = %s.K%d.%s()\n" % (q2, i, nested))
+    a.append("def h0(k: %s.K%d) -> %s.K%d.%s:\n  return k.%s()\n" % (q2, i, q2, i, nested, nested))
+    P("vs0", "{A}s0")
+    P("sz0", "{A}s0.z")
+    P("hz0", "{A}h0({A}s0.up()).z")
+  src_a = "".join(a)
+  src_a_probes = src_a + "".join("_p_%s = %s\n" % (n, e.replace("{A}", "")) for n, e in probes)
+  src_b = "import a\n" + "".join("%s = %s\n" % (n, e.replace("{A}", "a.")) for n, e in probes)
+  mods.append(("a", "a", src_a_probes))
+  mods.append(("b", "b", src_b))
+  return {"modules": mods, "probes": [n for n, _ in probes], "layout": layout, "import": imp}
+
+
+def rename_canon(c, f):
+  if isinstance(c, str):
+    return f(c)
+  return tuple(rename_canon(x, f) if isinstance(x, (str, tuple)) else x for x in c)
+
+
+def chain_defs(pyi, name):
+  """{name: canonical type} of a stub, module aliases spelled out (`cc.K.In` -> `c.K.In`)."""
+  from pytype.pytd import pytd
+  ast = parse_stub(pyi, name)
+  amap = {}
+  for al in ast.aliases:
+    if isinstance(al.type, pytd.Module):
+      amap[al.name.split(".", 1)[-1] if al.name.startswith(name + ".") else al.name] = al.type.module_name
+  def fix(n):
+    if n.startswith("~"):
+      return n
+    parts = n.split(".")
+    for k in range(len(parts), 0, -1):
+      head = ".".join(parts[:k])
+      if head in amap:
+        return ".".join([amap[head]] + parts[k:])
+    return n
+  out = {}
+  for c in ast.constants:
+    out[c.name.split(".")[-1]] = ("type", rename_canon(canon(c.type, mod=name), fix))
+  for al in ast.aliases:
+    if isinstance(al.type, pytd.Type):
+      out[al.name.split(".")[-1]] = ("alias", rename_canon(canon(al.type, mod=name), fix))
+  return out
+
+
+def check_chain(chain, workdir, transports=TRANSPORTS):
+  """analyses the modules in order through each transport; b's probes must have the types a's own analysis inferred
+  for the same expressions; no import / pyi / attribute errors anywhere."""
+  from pytype import config, io
+  from pytype import utils as pytype_utils
+  mods = [tuple(m) for m in chain["modules"]]
+  res = {"status": "ok", "issues": [], "n_expect": 0, "kinds": {}, "src_a": mods[-2][2], "src_b": mods[-1][2],
+         "chain": True, "layout": chain.get("layout")}
+  stubs_b = {}
+  for tr in transports:
+    shutil.rmtree(workdir, ignore_errors=True)
+    os.makedirs(workdir)
+    imap = []
+    pyis = {}
+    for path, name, src in mods:
+      os.makedirs(os.path.dirname(os.path.join(workdir, path)) or workdir, exist_ok=True)
+      kw = dict(python_version=(3, 12), typeshed=False, module_name=name)
+      if tr == "text":
+        kw["pythonpath"] = workdir
+      else:
+        kw["imports_map_items"] = list(imap)
+        kw["use_pickled_files"] = tr == "pickle"
+      try:
+        ret, pyi = io.generate_pyi(src, config.Options.create(**kw))
+      except pytype_utils.UsageError as e:
+        return {"status": "skip", "why": "usage-error " + str(e)[:100]}
+      except Exception as e:  # pylint: disable=broad-except
+        res.update(status="violation", transport=tr, kind="crash",
+                   what="analysis of module %s raised %s: %s" % (name, type(e).__name__, str(e)[:300]),
+                   trace=traceback.format_exc()[-1500:])
+        return res
+      if tr == "pickle" and name == "b" and type(ret.context.loader).__name__ != "PickledPyiLoader":
+        res.update(status="violation", transport=tr, kind="harness", what="pickle transport did not use PickledPyiLoader")
+        return res
+      errs = [(e.name, e.line, str(e.message)[:200]) for e in ret.context.errorlog]
+      bad = [e for e in errs if e[0] in FATAL + ("module-attr", "attribute-error", "name-error", "not-callable", "invalid-annotation")]
+      if bad:
+        res.update(status="violation", transport=tr, kind=bad[0][0], what="module %s reports %r" % (name, bad[0]))
+        return res
+      with open(os.path.join(workdir, path + ".pyi"), "w") as f:
+        f.write(pyi)
+      pyis[name] = pyi
+      if tr == "pickle":
+        out = os.path.join(workdir, path + ".pickled")
+        o2 = config.Options.create(os.path.join(workdir, path + ".py"), output=out, pickle_output=True, **kw)
+        io.write_pickle(ret.ast, o2, ret.context.loader)
+        imap.append((path + ".pyi", out))
+      else:
+        imap.append((path + ".pyi", os.path.join(workdir, path + ".pyi")))
+    res["stub_a"] = pyis["a"]
+    try:
+      da = chain_defs(pyis["a"], "a")
+      db = chain_defs(pyis["b"], "b")
+    except Exception as e:  # pylint: disable=broad-except
+      res.update(status="violation", transport=tr, kind="unparseable-stub", what=str(e)[:300])
+      return res
+    stubs_b[tr] = pyis["b"]
+    n = 0
+    for p in chain["probes"]:
+      want, got = da.get("_p_" + p), db.get(p)
+      if want is None:
+        continue
+      n += 1
+      res["kinds"]["chain-inferred"] = res["kinds"].get("chain-inferred", 0) + 1
+      if not same_def(want, got):
+        res["issues"].append({"transport": tr, "kind": "type-differs", "name": p, "source": "a." + p,
+                              "what": "chain %s (`%s`): a infers %s for `%s`, b sees %s" %
+                              (chain.get("layout"), chain.get("import"), show(want[1]), p,
+                               "<missing>" if got is None else "%s %s" % (got[0], show(got[1])))})
+    res["n_expect"] = max(res["n_expect"], n)
+  if res["issues"]:
+    i0 = res["issues"][0]
+    res.update(status="violation", **{k: i0[k] for k in ("transport", "kind", "name", "source", "what")})
+    return res
+  if len(set(stubs_b.values())) > 1:
+    a0 = stubs_b[transports[0]]
+    for tr in transports[1:]:
+      if stubs_b[tr] != a0:
+        res.update(status="violation", transport=tr, kind="transports-differ",
+                   what="chain: b's stub through %s differs from the one through %s" % (tr, transports[0]),
+                   stub_0=a0, stub_1=stubs_b[tr])
+        return res
+  return res
